@@ -637,12 +637,6 @@ class ZoneSpecifier:
                 logging.info('init_for_year(): cached')
             return
 
-        self.year = year
-        self.max_transition_buffer_size = 0
-        self.matches = []
-        self.transitions = []
-        self.all_candidate_transitions = []
-
         if self.viewing_months == 12:
             start_ym = YearMonthTuple(year, 1)
             until_ym = YearMonthTuple(year + 1, 1)
@@ -658,6 +652,12 @@ class ZoneSpecifier:
         else:
             raise Exception(
                 'Unsupported viewing_months: %d' % self.viewing_months)
+
+        self.year = year
+        self.max_transition_buffer_size = 0
+        self.matches = []
+        self.transitions = []
+        self.all_candidate_transitions = []
 
         if self.debug:
             logging.info('==== Finding matches')
